@@ -21,7 +21,7 @@ METHODS = {"inverse": "inverse", "inverse_continuing": "inverseContinuing", "inv
            "forward_with_joint_poses": "links", "kinematic_singularity": "singularity", "constraints": "constraints"}
 # kind of value an expression denotes: iso / joints / sols / links / num / other
 RET = {"inverse": "sols", "inverseContinuing": "sols", "inverse5dof": "sols", "inverseContinuing5dof": "sols",
-       "forward": "iso", "links": "links", "singularity": "other", "constraints": "other"}
+       "forward": "iso", "links": "links", "singularity": "sing", "constraints": "cons"}
 
 
 class P:
@@ -80,7 +80,14 @@ class P:
         if k == "id" and x == "self":
             self.expect(".")
             f = self.next()[1]
-            if f == "robot":
+            if f == "remove_collisions" and "remove_collisions" in self.fields:
+                self.expect("(")
+                a = self.expr()
+                self.expect(")")
+                if a[0] != "sols":
+                    raise TranslateError("remove_collisions of a non-solution list")
+                return ("sols", f"(kwsRemoveCollisions collides {a[1]})")
+            if f in ("robot", "kinematics"):
                 self.expect(".")
                 m = self.next()[1]
                 if m not in METHODS:
@@ -130,9 +137,10 @@ def method(block, name):
     return params, " ".join(body.split())
 
 
-PKIND = {"tcp": "iso", "pose": "iso", "qs": "joints", "joints": "joints", "previous": "joints", "j6": "num"}
+PKIND = {"tcp": "iso", "pose": "iso", "qs": "joints", "joints": "joints", "previous": "joints", "prev": "joints", "j6": "num"}
 PTYPE = {"iso": "Iso R", "joints": "J6 R", "num": "R"}
-RTYPE = {"sols": "List (J6 R)", "iso": "Iso R", "links": "List (Iso R)", "pair": "List (J6 R) × Iso R"}
+RTYPE = {"sols": "List (J6 R)", "iso": "Iso R", "links": "List (Iso R)", "pair": "List (J6 R) × Iso R", "sing": "Bool",
+         "cons": "Option (Constraints R)"}
 
 
 def translate_method(block, rust_name, lean_name, fields, fdecl, doc):
@@ -216,12 +224,44 @@ def translate_method(block, rust_name, lean_name, fields, fdecl, doc):
     return text
 
 
-def generate(tool_src, frame_src, para_src):
+def kws_inherent(block, rust_name, lean_name, extra):
+    """`self.body.NAME(args.., self.kinematics.as_ref()[, more])`: the facade hands the question to its body unchanged"""
+    params, body = method(block, rust_name)
+    flat = body.replace(" ", "")
+    args = ",".join(["&" + p if False else p for p in params[:len(params) - len(extra)]] + ["self.kinematics.as_ref()"] + extra)
+    want = f"self.body.{rust_name}({args})"
+    if flat.replace("&", "") != want.replace("&", ""):
+        raise TranslateError(f"KinematicsWithShape::{rust_name} is not the plain delegation `{want}`: `{body}`")
+    ps = " ".join(f"({p}_ : α{i})" for i, p in enumerate(params))
+    ts = " ".join(f"{{α{i} : Type}}" for i in range(len(params)))
+    fty = " → ".join([f"α{i}" for i in range(len(params))] + ["β"])
+    call = " ".join(p + "_" for p in params)
+    return (f"/-- `KinematicsWithShape::{rust_name}`: the body's `{rust_name}` on the same arguments and the wrapped kinematics -/\n"
+            f"def {lean_name} {ts} {{β : Type}} (body : {fty}) {ps} : β :=\n  body {call}\n")
+
+
+def remove_collisions(block):
+    params, body = method(block, "remove_collisions")
+    m = re.match(r"let mut (\w+) = Vec::with_capacity\((\w+)\.len\(\)\); for (\w+) in (\w+) \{ if (!?)self\.body\.collides\(&(\w+), "
+                 r"self\.kinematics\.as_ref\(\)\) \{ (\w+)\.push\((\w+)\); \} \} (\w+)$", body)
+    if not m:
+        raise TranslateError("remove_collisions: not a keep-in-order filter loop: " + body)
+    out, src, it, src2, neg, arg, out2, pushed, ret = m.groups()
+    if not (params == [src] and src == src2 and out == out2 == ret and it == arg == pushed):
+        raise TranslateError("remove_collisions: loop variables do not line up: " + body)
+    keep = f"!(collides {it}_)" if neg else f"collides {it}_"
+    return ("/-- `KinematicsWithShape::remove_collisions`: answers kept in order, those reported colliding dropped -/\n"
+            f"def kwsRemoveCollisions (collides : J6 R → Bool) ({src}_ : List (J6 R)) : List (J6 R) :=\n"
+            f"  {src}_.filter (fun {it}_ => {keep})\n")
+
+
+def generate(tool_src, frame_src, para_src, kws_src=None):
     L = ["/- GENERATED by tools/rs2lean_wrap.py from /repo/src/{tool,frame,parallelogram}.rs on every run. Do not edit. -/",
          "import OpwVerif.Wrappers", "set_option linter.unusedVariables false", "namespace Opw.SrcWrap", "open Opw",
          "variable {R : Type} [OpwNum R]", ""]
     five = [("inverse", "Inverse"), ("inverse_continuing", "InverseContinuing"), ("inverse_5dof", "Inverse5dof"),
-            ("inverse_continuing_5dof", "InverseContinuing5dof"), ("forward", "Forward"), ("forward_with_joint_poses", "Links")]
+            ("inverse_continuing_5dof", "InverseContinuing5dof"), ("forward", "Forward"), ("forward_with_joint_poses", "Links"),
+            ("kinematic_singularity", "Singularity"), ("constraints", "Constraints")]
     for struct, src, field in [("Tool", tool_src, "tool"), ("Base", tool_src, "base"), ("Frame", frame_src, "frame")]:
         block = impl_block(src, f"impl Kinematics for {struct}")
         fields = {field: ("iso", "w")}
@@ -233,9 +273,27 @@ def generate(tool_src, frame_src, para_src):
     pblock = impl_block(para_src, "impl Kinematics for Parallelogram")
     for rn, ln in five:
         L.append(translate_method(pblock, rn, f"para{ln}", {}, "(scaling : R) (driven coupled : Nat)", f"`<Parallelogram as Kinematics>::{rn}`"))
+    if kws_src is not None:
+        kws_src = re.sub(r"//[^\n]*", "", kws_src)
+        # the inherent block that holds remove_collisions and the facade methods
+        rest, inh2 = kws_src, None
+        while inh2 is None:
+            blk = impl_block(rest, "impl KinematicsWithShape")
+            if "fn remove_collisions" in blk:
+                inh2 = blk
+            rest = rest[rest.index(blk) + len(blk):]
+        L.append(remove_collisions(inh2))
+        kblock = impl_block(kws_src, "impl Kinematics for KinematicsWithShape")
+        for rn, ln in five:
+            L.append(translate_method(kblock, rn, f"kws{ln}", {"remove_collisions": True}, "(collides : J6 R → Bool)",
+                                      f"`<KinematicsWithShape as Kinematics>::{rn}`"))
+        for rn, ln, extra in [("collides", "kwsCollides", []), ("non_colliding_offsets", "kwsNonCollidingOffsets", []),
+                              ("collision_details", "kwsCollisionDetails", []), ("near", "kwsNear", ["safety"])]:
+            L.append(kws_inherent(inh2, rn, ln, extra))
     L.append("end Opw.SrcWrap")
     return "\n".join(L) + "\n"
 
 
 if __name__ == "__main__":
-    sys.stdout.write(generate(open("/repo/src/tool.rs").read(), open("/repo/src/frame.rs").read(), open("/repo/src/parallelogram.rs").read()))
+    sys.stdout.write(generate(open("/repo/src/tool.rs").read(), open("/repo/src/frame.rs").read(), open("/repo/src/parallelogram.rs").read(),
+                              open("/repo/src/kinematics_with_shape.rs").read()))
